@@ -11,7 +11,10 @@ PRINTF_LIKE = {"printf", "fprintf", "sprintf", "snprintf", "puts", "fputs", "ffl
                "__assert_fail"}
 
 
-class Exec(Engine):
+from .heap import HeapMixin
+
+
+class Exec(HeapMixin, Engine):
     # ================================================================== expressions
     def lvalue(self, st, n):
         """Evaluate an lvalue expression to a Ptr."""
@@ -233,6 +236,11 @@ class Exec(Engine):
     rv_CStyleCastExpr = rv_ImplicitCastExpr
 
     def cast(self, st, v, ck, to, frm, n):
+        if ck == "BitCast" and isinstance(v, Ptr) and v.obj is not None and to.kind == "ptr":
+            o = st.mem.objs.get(v.obj)
+            if isinstance(o, ArrObj) and o.elem is None:
+                return self.retype_block(st, v, to.to)
+            return v
         if ck in ("NoOp", "FloatingCast", "BitCast", "LValueBitCast", "ToVoid", "ArrayToPointerDecay"):
             return v
         if ck == "IntegralCast":
